@@ -21,14 +21,16 @@ for d in sorted(SEEDED.iterdir()):
         continue
     m = json.loads(mp.read_text())
     if d.name in res:
-        m["caught_by_quick"] = sorted(c for c, (rc, keys) in res[d.name].items() if rc == 1 and keys)
+        m["caught_by_quick"] = sorted(c for c, (rc, keys) in res[d.name].items() if rc == 1)
         m["keys"] = {c: keys[:6] for c, (rc, keys) in res[d.name].items() if keys}
         mp.write_text(json.dumps(m, indent=1) + "\n")
     caught = ", ".join(m.get("caught_by_quick") or []) or ("— (thorough: %s)" % ", ".join(m["caught_by_thorough_only"]) if m.get("caught_by_thorough_only") else "— not caught")
+    if m.get("also_caught_by"):
+        caught += " (also: " + ", ".join(m["also_caught_by"]) + ")"
     if m.get("status", "").startswith("obsolete"):
         caught += " (while it applied)"
     keys = "; ".join(f"{k}" for c in (m.get("keys") or {}).values() for k in c[:2])
     note = m.get("note", "")
-    rows.append(f"| `{d.name}` | {m['property']} | {m.get('wave', '1-2')} | {caught} | {(note + ' ' if note else '')}{('keys: ' + keys) if keys else ''} |")
+    rows.append(f"| `{d.name}` | {m['property']} | {m.get('wave', '1-2')} | {caught} | {(note + '; ' if note else '')}{('keys: ' + keys) if keys else ''}{(' — ' + m['status']) if m.get('status') else ''}{(' — ' + m['rebased']) if m.get('rebased') else ''} |")
 print("| change | property | wave | caught by (quick tier) | remarks |\n|---|---|---|---|---|")
 print("\n".join(rows))
